@@ -225,8 +225,8 @@ def run(ctx):
         raise AnalysisError("R01.11: recurse_assign no longer serves its targets from an indexed sequence")
 
     def fresh(e):
-        if isinstance(e, (ast.List, ast.Tuple)):
-            return True   # a display builds a new object (its starred elements are iterated at once)
+        if isinstance(e, (ast.List, ast.Tuple, ast.ListComp)):
+            return True   # a display / list comprehension builds a new object (its elements are taken out at once)
         if isinstance(e, ast.Call) and isinstance(e.func, ast.Name) and e.func.id in ("list", "tuple"):
             return True
         if isinstance(e, ast.IfExp):
